@@ -21,7 +21,7 @@ namespace hm {
 
 static const char* OPK[] = {"create", "release", "call", "destroy_mock", "move_mock", "destroy_seq", "move_seq", "new_watched",
   "delete_watched", "copy_watched", "movecons_watched", "assign_watched", "moveassign_watched", "monitor", "push_tracer", "pop_tracer", "set_reporter", "assign_fresh_seq", "arm_ok_reporter_to_set_reporter", "arm_reporter_to_destroy"};
-static const char* FNN[] = {"f", "g", "f2", "v", "r", "cr", "sv", "f const"};
+static const char* FNN[] = {"f", "g", "f2", "v", "r", "cr", "sv", "f const", "z"};
 static_assert(sizeof FNN / sizeof FNN[0] == NFN, "one name per mock function");
 static const char* OKN[] = {"done", "accept", "thrown", "nomatch", "forbidden", "seqmis", "logic_error", "nested_fatal", "other"};
 static const char* RKN[] = {"nomatch", "forbidden", "seqmis", "unfulfilled", "pending_destroyed", "seq_teardown", "still_alive", "unexpected_destruction", "other"};
@@ -43,7 +43,7 @@ std::string op_str(const Op& op) {
     }
     case OP_MONITOR: { const Shape& sh = g_shapes[op.shape]; o << " e" << (int)op.slot << " := REQUIRE_DESTRUCTION(w" << (int)op.obj << ')'; if (sh.seqar >= 1) o << " seq=s" << (int)op.s1; if (sh.seqar >= 2) o << ",s" << (int)op.s2; break; }
     case OP_RELEASE: o << " e" << (int)op.slot; if (op.k1 == 1) o << " [during stack unwinding]"; break;
-    case OP_CALL: o << " obj" << (int)op.obj << '.' << FNN[op.fn] << '(' << (int)op.a1; if (op.fn == F2) o << ',' << (int)op.a2; o << ')'; if (op.k1 == 1) o << " [from a catch handler]"; break;
+    case OP_CALL: o << " obj" << (int)op.obj << '.' << FNN[op.fn] << '('; if (op.fn != Z0) o << (int)op.a1; if (op.fn == F2) o << ',' << (int)op.a2; o << ')'; if (op.k1 == 1) o << " [from a catch handler]"; break;
     case OP_DESTROY_MOCK: case OP_ARM_REPORTER: o << " obj" << (int)op.obj; if (op.kind == OP_DESTROY_MOCK && op.k1 == 1) o << " [during stack unwinding]"; break;
     case OP_MOVE_MOCK: o << " obj" << (int)op.obj << " -> obj" << (int)op.k1; break;
     case OP_ASSIGN_SEQ: o << " s" << (int)op.s1; if (op.k1 == 1) o << " from s" << (int)op.s2; break;
